@@ -82,6 +82,21 @@ REGISTRY = {
     # C08: PcModel/EasyLoops.lean, EasyAC.lean
     "EasyLoops": [("src/deleglise-rivat/S2_easy.cpp", None), ("src/deleglise-rivat/S2_easy_libdivide.cpp", None),
                   ("src/gourdon/AC.cpp", None), ("src/gourdon/AC_libdivide.cpp", None)],
+    # C18: PcModel/Iter.lean (iterator / API layer of the bundled primesieve; the sieving core has its own extractor extract_pswheel.py)
+    "PsIter": [("lib/primesieve/src/iterator.cpp", ["iterator::iterator#3", "iterator::jump_to", "iterator::clear",
+                                                    "iterator::generate_next_primes", "iterator::generate_prev_primes"]),
+               ("lib/primesieve/src/IteratorHelper.cpp", None),
+               ("lib/primesieve/include/primesieve/iterator.hpp", None),
+               ("lib/primesieve/include/primesieve/pmath.hpp", ["checkedAdd", "checkedSub", "inBetween", "maxPrimeGap"]),
+               ("lib/primesieve/src/PrimeGenerator.cpp", ["PrimeGenerator::maxCachedPrime", "PrimeGenerator::getStartIdx",
+                                                          "PrimeGenerator::getStopIdx", "PrimeGenerator::initPrevPrimes",
+                                                          "PrimeGenerator::initNextPrimes", "PrimeGenerator::initErat"]),
+               ("lib/primesieve/src/nthPrime.cpp", None),
+               ("lib/primesieve/src/ParallelSieve.cpp", ["ParallelSieve::idealNumThreads", "ParallelSieve::getThreadDistance",
+                                                         "ParallelSieve::align", "ParallelSieve::sieve"]),
+               ("lib/primesieve/src/PrimeSieve.cpp", ["PrimeSieve::processSmallPrimes", "PrimeSieve::sieve#3"]),
+               ("lib/primesieve/include/primesieve/StorePrimes.hpp", ["store_primes", "store_n_primes"]),
+               ("lib/primesieve/src/api.cpp", ["nth_prime", "count_primes"])],
     # C14: PcModel/CApi.lean
     "CApi": [("src/api_c.cpp", None)],
     # C19: PcModel/LiR.lean
